@@ -293,6 +293,8 @@ R_numz == {<<k, v>> : k \in {S(97)}, v \in {D(48), Str(<<45, 50>>), D(52), Str(<
 \* numeric group keys whose decimal spellings sort differently from their values (2 < 9 < 10, -5 < -1)
 R_numk  == {<<k, v>> : k \in {IntV(2), IntV(9), IntV(10), IntV(0 - 5), IntV(0 - 1)}, v \in {D(49)}}
 R_numks == {<<k, v>> : k \in {D(50), D(57), Str(<<49, 48>>)}, v \in {D(49), D(50)}}
+\* string keys one of which is a prefix of another, continued by a character below the double quote (space, !): JSON text order differs
+R_keysp == {<<k, v>> : k \in {S(97), Str(<<97, 32>>), Str(<<97, 33, 98>>), S(98)}, v \in {D(49)}}
 Q_C03key  == {[BaseQ EXCEPT !.items = <<E(Fa(1)), Agg("COUNT", <<"int", 1>>)>>, !.hasgroup = TRUE, !.group = <<Fa(1)>>],
               [BaseQ EXCEPT !.items = <<E(Fa(2)), E(Fa(1)), Agg("COUNT", <<"int", 1>>)>>, !.hasgroup = TRUE, !.group = <<Fa(2), Fa(1)>>]}
 Q_C03keys == {[BaseQ EXCEPT !.items = <<Agg("MAX", Fa(2)), Agg("COUNT", <<"int", 1>>)>>, !.hasgroup = TRUE, !.group = <<<<"num", Fa(1)>> >>]}
